@@ -8,6 +8,8 @@ NOTE = ("Trusted: z3 5.1 / cvc5 1.0.3 verdicts; the pyvc executor's encoding of 
         "bs4/lxml/cssutils; floats under the standard error model (binary64, round-to-nearest, no overflow); "
         "the bounded parts are run-time contract evaluation, never counted as proof. See evidence/<id>.json.")
 CLAIMED = {
+ "C20": ("contract-based deductive verification over abstract strings (AST->SMT VCs; a string is known only through uninterpreted observations) + exhaustive bounded enumeration of short strings",
+         "P (every non-empty string): each reader.detect and detect_format never raise, and detect_format returns the first reader of the documented order whose detect accepts, else None; the empty string raises the no-captions error; B: all strings up to length 4 over the marker alphabet, writer outputs detected and read back, truncations at every byte", "3 C20"),
  "C15": ("contract-based deductive verification of the scan region with a loop invariant (array model of the defaultdict, spec fold ACC) + bounded run-time contracts on SCC streams",
          "P (any number of captions): after the scan every key holds the concatenation of the over-long lines of all captions with that start time, in order - nothing is lost when captions share a start time; B: streams in all three modes, rows of 0-40 chars, captions sharing a start time in every order: raise naming every long row iff some row exceeds 32", "3 C15"),
  "C19": ("contract-based deductive verification with loop invariants (AST->SMT VCs over z3 sequences and a field-array heap; spec folds) + exhaustive bounded enumeration of small lists",
